@@ -73,7 +73,7 @@ def real_lex(d, src):
 
 class LexStream(Stream):
     name = "lex"
-    parallel = True
+    parallel = False  # cheap per case; a 16-process pool costs more than it saves
 
     def cases(self, ctx):
         from .c20 import gen_pieces
@@ -198,7 +198,7 @@ def render_with(case, d):
 class RenderStream(Stream):
     name = "render"
     has_model = False
-    parallel = True
+    parallel = False  # cheap per case; a 16-process pool costs more than it saves
 
     def cases(self, ctx):
         rng = ctx.rng_for("render")
